@@ -47,8 +47,8 @@ def make_tables(rng, numeric=False, plain=False):
     pool = gen.FIELD_NAMES_PLAIN if plain else gen.FIELD_NAMES_META
     names = rng.sample(pool, min(nf, len(pool)))
     if numeric:
-        typ = rng.choice(['integer', 'number'])
-        fields = [(n, typ) for n in names]
+        typ = rng.choice(['integer', 'number', 'integer', 'number', 'duration', 'bigint'])
+        fields = [(n, 'integer' if typ == 'bigint' else typ) for n in names]
     else:
         fields = [(n, rng.choice(['string', 'integer', 'number', 'string'])) for n in names]
     res_names = rng.sample(['r1', 'r2', 'r3', 'x'], nres)
@@ -58,7 +58,20 @@ def make_tables(rng, numeric=False, plain=False):
         classes = {'string': ['plain', 'empty', 'unicode', 'numeric_looking', 'prefix_chain', 'none_like',
                               'quote', 'delim'],
                    'integer': ['small', 'negative'], 'number': ['decimal', 'exp']}
-        tables[rn] = gen.table(rng, fields, nrows, classes=classes, null_p=0.2)
+        tables[rn] = gen.table(rng, [(n, 'integer' if t == 'duration' else t) for n, t in fields], nrows,
+                               classes=classes, null_p=0.2)
+        if numeric and typ == 'duration':
+            import datetime
+            for row in tables[rn]:
+                for n, _ in fields:
+                    if row[n] is not None:
+                        row[n] = datetime.timedelta(hours=abs(row[n]) % 50, seconds=abs(row[n]) % 7)
+        if numeric and typ == 'bigint':
+            # integers beyond 2**53: sums and averages are exact
+            for row in tables[rn]:
+                for n, _ in fields:
+                    if row[n] is not None:
+                        row[n] = 2 ** 53 + 1 + row[n] * 2
     return res_names, fields, tables
 
 
@@ -171,6 +184,8 @@ def run_case(case):
         for j in range(rng.randint(1, 3)):
             op = rng.choice(['constant', 'sum', 'avg', 'min', 'max', 'multiply', 'join', 'format',
                              'callable'])
+            if op == 'multiply' and numeric and fields[0][1] == 'duration':
+                op = 'sum'          # a product of durations is not defined
             covc['op/' + op] = covc.get('op/' + op, 0) + 1
             src = rng.sample(names, rng.randint(1, min(3, len(names))))
             if op in ('sum', 'avg', 'min', 'max', 'multiply') and not numeric:
@@ -225,7 +240,8 @@ def run_case(case):
         raise KeyError(fam)
 
     per_res_fields = {rn: sfields for rn in res_names}
-    if fam == 'add_computed_field' and numeric and len(res_names) > 1 and rng.random() < 0.5:
+    if fam == 'add_computed_field' and numeric and len(res_names) > 1 and rng.random() < 0.5 \
+            and fields[0][1] != 'duration':
         # the same-named source fields are integer in one resource and number in another: a computed field given
         # by name only must be typed per resource
         other = 'number' if fields[0][1] == 'integer' else 'integer'
